@@ -42,7 +42,7 @@ class ListModel:
                 merged = dict(lookup)
                 merged.update(b)
                 out.append((tuple(sorted(merged.items())), o))
-        return sorted(out)
+        return sorted(out, key=repr)
 
     def clear(self):
         self.store = []
@@ -86,7 +86,7 @@ class C20(Prop):
     vacuity = {"quick": ["probe:engine_retrieve_judged", "probe:engine_check_judged", "probe:engine_insert_partial_binding",
                          "probe:wildcard_level_traversed", "probe:overwrite", "probe:retrieve_multi",
                          "probe:check_true", "probe:check_false", "probe:lookup_with_extra_keys",
-                         "probe:cleared_nonempty"]}
+                         "probe:cleared_nonempty", "probe:insert_from_reused_dict"]}
     rule = ("seeded histories of insert(full|partial non-empty binding, out) / check(lookup binding >=1 key) / "
             "retrieve(lookup, drained) / clear over 1-4 integer keys given in random order and 2-3 values; "
             "campaign 'plain' never stores a wildcard entry and a concrete entry as siblings on one trie level, "
@@ -110,9 +110,10 @@ class C20(Prop):
             plan["engine"] = True
             return plan
         nk = rng.choice([1, 2, 2, 3, 3, 4])
-        keys = rng.sample(range(1, 9), nk)
+        keys = rng.sample(rng.choice([list(range(1, 9)), list(range(1, 9)), [-3, -1, 0, 1, 2, 5, 100, 1000]]), nk)
         nv = rng.choice([2, 2, 3])
-        n_ops = rng.randint(2, 10 if tier == "quick" else 14)
+        n_ops = rng.randint(2, 10 if tier == "quick" else rng.choice([14, 14, 40]))
+        reuse_buffer = rng.random() < 0.3
         siblings = campaign == "known:siblings"
         ops = []
         stored = []
@@ -148,7 +149,10 @@ class C20(Prop):
                 if stored and rng.random() < 0.15:
                     b = dict(rng.choice(stored))    # overwrite
                 stored.append(dict(b))
-                ops.append(["insert", b, rng.randrange(1000)])
+                op = ["insert", b, rng.choice([rng.randrange(1000), rng.randrange(1000), 0, False, "", ()])]
+                if reuse_buffer and rng.random() < 0.7:
+                    op.append("buf")      # the caller refills and re-inserts one dict object (row-buffer style)
+                ops.append(op)
             elif r < 0.65:
                 l = rand_binding(rng.choice([0.0, 0.3, 0.6]))
                 if rng.random() < 0.3:
@@ -219,6 +223,7 @@ class C20(Prop):
 
         real = IndexedCache(list(keys))
         model = ListModel(keys)
+        buf = {}            # one dict object the caller keeps refilling (aliasing seam)
         sorted_keys = sorted(keys)
         sig = []
         got_any = judged_check = False
@@ -233,7 +238,13 @@ class C20(Prop):
                 mb = lab(b)
                 if any(x == mb for x, _ in model.store):
                     sim.count("probe:overwrite")
-                real.insert(dict(b), op[2])
+                if len(op) > 3 and op[3] == "buf":
+                    buf.clear()
+                    buf.update(b)
+                    real.insert(buf, op[2])
+                    sim.count("probe:insert_from_reused_dict")
+                else:
+                    real.insert(dict(b), op[2])
                 model.insert(mb, op[2])
                 sim.event("insert", tuple(sorted(mb.items())), op[2])
                 sig.append("i%d" % len(b))
@@ -261,7 +272,7 @@ class C20(Prop):
                 if trig:
                     sim.count("probe:sibling_level_on_lookup_path")
                 try:
-                    got = sorted((tuple(sorted(lab(r).items())), o) for r, o in real.retrieve(dict(l)))
+                    got = sorted(((tuple(sorted(lab(r).items())), o) for r, o in real.retrieve(dict(l))), key=repr)
                     exc = None
                 except Exception as e:  # the index raising on a well-formed lookup is a wrong answer
                     got, exc = None, type(e).__name__
